@@ -36,9 +36,9 @@ WordClass(P, w) ==
               (IF \E p \in sub : \E l \in InnerLevels(sp.sub[p]) : InnerReqAt(case, sp.sub[p], w, l) # {}
                THEN "word_value_with_longer_sibling" ELSE "word_value")
        ELSE IF cmd # {} THEN
-              (IF 32 \in RangeS(w) THEN "command_candidate_with_blank"
-               ELSE IF \E p \in P \ {END} : IsCmdK(sp.top.item[p].k) /\ w \notin CandsOf(case, sp.top.item[p])
-                    THEN "command_candidate_beside_other_command" ELSE "command_candidate")
+              (IF \E p \in P \ {END} : IsCmdK(sp.top.item[p].k) /\ w \notin CandsOf(case, sp.top.item[p])
+               THEN "command_candidate_beside_other_command"
+               ELSE IF 32 \in RangeS(w) THEN "command_candidate_with_blank" ELSE "command_candidate")
        ELSE IF star # {} THEN
               (IF \E p \in P \ {END} : sp.top.item[p].k = "sub" /\ InnerIncomplete(case, sp.sub[p], w) THEN "any_word_beside_unfinished_word"
                ELSE IF \E p \in P \ {END} : IsCmdK(sp.top.item[p].k) THEN "any_word_at_command_point" ELSE "any_word")
